@@ -19,7 +19,10 @@ fn random_def(r: &mut Rng) -> String {
             r.pick(&NAMES_COLON).to_string()
         }
     };
-    match r.below(7) {
+    match r.below(9) {
+        // pipelines that leave something on their stack, or find it empty: nothing of that outlives the application
+        7 => r.pick(&["addone | stack pop=1", "stack push=1,2 | addone | stack pop=1", "stack pop=1,2 | addone", "stack push=3 | addone", "stack push=1 | stack swap | stack pop=1", "push v_1 v_2 | addone", "addone | pop v_1", "stack push=1,2,3,4 | stack roll=3,1 | stack pop=2"]).to_string(),
+        8 => format!("{} | stack pop=1 | {}", pick(r), pick(r)),
         // a colon in an argument value must not make the step look like a macro invocation
         5 => format!("{} crs=EPSG:25832", pick(r)),
         6 => format!("{} v=7 | {} note=a:b inv", pick(r), pick(r)),
